@@ -311,6 +311,18 @@ func (robustSuite) Gen(r *Rng, i int, tier string) any {
 			{{Path: "a", Type: "dir", Mode: 0o755}, {Path: "a/../..", Type: "dir", Mode: 0o755}},
 			{{Path: "usr", Type: "dir", Mode: 0o755}, {Path: "usr/f", Type: "hardlink", Mode: 0o644, Link: "usr/missing"}},
 			{{Path: "l", Type: "symlink", Mode: 0o777, Link: ""}},
+			// regular-file entries whose MODE FIELD carries file-type bits (archive/tar's FileInfo().Mode() decodes them):
+			// a "file" that says it is a directory, a symlink, a device, a fifo, a socket — and entries below / through it
+			{{Path: "f", Type: "file", Mode: 0o40644, Content: "x"}, {Path: "f/x", Type: "dir", Mode: 0o755}},
+			{{Path: "f", Type: "file", Mode: 0o40644, Content: "x"}, {Path: "f/y", Type: "file", Mode: 0o644, Content: "y"}},
+			{{Path: "f", Type: "file", Mode: 0o40755}, {Path: "f/l", Type: "symlink", Mode: 0o777, Link: "../f"}},
+			{{Path: "f", Type: "file", Mode: 0o120644, Content: "x"}, {Path: "f/y", Type: "file", Mode: 0o644, Content: "y"}},
+			{{Path: "f", Type: "file", Mode: 0o120777}, {Path: "g", Type: "hardlink", Mode: 0o644, Link: "f"}},
+			{{Path: "f", Type: "file", Mode: 0o60644, Content: "x"}, {Path: "f/y", Type: "dir", Mode: 0o755}},
+			{{Path: "f", Type: "file", Mode: 0o10644, Content: "x"}},
+			{{Path: "f", Type: "file", Mode: 0o140644, Content: "x"}},
+			{{Path: "d", Type: "dir", Mode: 0o100755}, {Path: "d/x", Type: "file", Mode: 0o644, Content: "x"}},
+			{{Path: "d", Type: "dir", Mode: 0o120755}, {Path: "d/x", Type: "file", Mode: 0o644, Content: "x"}},
 		} {
 			b, _ := json.Marshal(hostile)
 			add("hostile-apk", b)
@@ -694,7 +706,20 @@ func robustApply(reader string, data []byte) (ans string) {
 		repo := BuildSynthRepo([]SPkg{{Name: "h", Version: "1.0-r0", Origin: "h", Files: files}}, []string{"x86_64"})
 		var ic types.ImageConfiguration
 		ic.Contents.Packages = []string{"h"}
+		// an ordinary configuration that touches what the package laid out: accounts with home directories below the
+		// package's paths, path mutations on and below them (every later build step meets the hostile nodes)
+		ic.Accounts.Users = []types.User{{UserName: "u", UID: 1000, GID: types.GID(ptrU32(1000)), HomeDir: "/f/u"}, {UserName: "v", UID: 1001, GID: types.GID(ptrU32(1000)), HomeDir: "/d/x/v"}}
+		ic.Accounts.Groups = []types.Group{{GroupName: "g", GID: 1000}}
+		ic.Paths = []types.PathMutation{{Path: "/f/d", Type: "directory", UID: 0, GID: 0, Permissions: 0o755}, {Path: "/d", Type: "permissions", UID: 1, GID: 1, Permissions: 0o700, Recursive: true},
+			{Path: "/f/e/f", Type: "empty-file", Permissions: 0o644}, {Path: "/l/s", Type: "symlink", Source: "/f"}}
 		out := e2eBuild(ic, repo, E2EOpts{Archs: []string{"x86_64"}})
+		if out.Err != nil {
+			// and the bare configuration (a failing mutation must not hide what the installation alone does)
+			var ic2 types.ImageConfiguration
+			ic2.Contents.Packages = []string{"h"}
+			out2 := e2eBuild(ic2, repo, E2EOpts{Archs: []string{"x86_64"}})
+			return "err/" + okErr(out2.Err)
+		}
 		return okErr(out.Err)
 	case "hostile-paths":
 		// a whole build whose image configuration carries hostile path mutations
@@ -758,3 +783,5 @@ func (r robustRootFS) Open(name string) (fs.File, error) {
 }
 
 var _ = gzip.BestSpeed
+
+func ptrU32(v uint32) *uint32 { return &v }
